@@ -10,6 +10,7 @@ Three parts:
     the ConfigMap decoder - DIFFERENTIAL TESTING of the result class only (answer/error/panic/timeout + a follow-up
     call on the same instance that needs every lock)."""
 import json, re
+from urllib.parse import quote
 import vf, locksgen
 from vf import cN, cZ, cbool, cstr, clist, copt, cpair
 
@@ -26,15 +27,29 @@ REFUTED = ["net_annotation_refuted_null", "preempt_refuted_nil_pod", "preempt_re
 DEPS = ["Strs", "Nets", "Pool", "NetsP", "PoolP", "Lockset", "LocksetP", "Surf", "SurfP", "CorrBase", "C18c", "C18"]
 
 KNOWN_FINDINGS = [
-    {"id": "F8b", "status": "fixed", "commit": "", "tag": "c18-netanno-null-element",
-     "what": "fixed: property=C18 networks annotation `[null]` decoded to a nil element that resolveNetworks dereferenced "
+    {"id": "F8b", "status": "fixed", "commit": "df7c32f", "tag": "c18-netanno-null-element",
+     "what": "fixed: property=C18 df7c32f networks annotation `[null]` decoded to a nil element that resolveNetworks dereferenced "
              "(CNI ADD handler panic); witness net_annotation_refuted_null, corpus C18 netanno"},
-    {"id": "F8c", "status": "fixed", "commit": "", "tag": "c18-preempt-nil-pod",
-     "what": "fixed: property=C18 POST /v1/preempt with a body without Pod (`{}`) dereferenced the nil Pod in the handler "
+    {"id": "F8c", "status": "fixed", "commit": "b6f78fd", "tag": "c18-preempt-nil-pod",
+     "what": "fixed: property=C18 b6f78fd POST /v1/preempt with a body without Pod (`{}`) dereferenced the nil Pod in the handler "
              "and in FloatingIPPlugin.Preempt; witness preempt_refuted_nil_pod"},
-    {"id": "F8d", "status": "fixed", "commit": "", "tag": "c18-policy-omitted-direction",
-     "what": "fixed: property=C18 a NetworkPolicy whose policyTypes omit a direction it lists rules for made "
+    {"id": "F8d", "status": "fixed", "commit": "c64b875", "tag": "c18-policy-omitted-direction",
+     "what": "fixed: property=C18 c64b875 a NetworkPolicy whose policyTypes omit a direction it lists rules for made "
              "syncIngressInIPSet/syncEgressInIPSet dereference the nil rule set; witness policy_sync_refuted_omitted_direction"},
+    {"id": "F8e", "status": "fixed", "commit": "0c6cba7", "tag": "c18-preempt-nil-victim",
+     "what": "fixed: property=C18 0c6cba7 a preempt request whose NodeNameToVictims holds a null entry or a null victim pod "
+             "(`{\"n1\":null}`, `{\"n1\":{\"Pods\":[null]}}`) dereferenced nil in fillNodeNameToMetaVictims; found by ghsurf; "
+             "witness preempt_refuted_nil_victim, corpus C18"},
+    {"id": "F8f", "status": "fixed", "commit": "ecbd364", "tag": "c18-extender-null-body",
+     "what": "fixed: property=C18 ecbd364 the JSON body `null` sent to /v1/filter, /v1/priority, /v1/bind or /v1/preempt set the "
+             "handler's argument pointer to nil (ReadEntity(&args)) and the handler dereferenced it; found by ghsurf (differential "
+             "testing only, go-restful entity decoding is not modelled)"},
+    {"id": "F4", "status": "fixed", "commit": "7cee827", "tag": "c18-walk-never-returns",
+     "what": "fixed: property=C18 7cee827 a pod's request_ip_range or a pool range ending at 255.255.255.255 made walkIPRanges "
+             "loop forever with the cache read lock held; witness walk_refuted_wrap_c18, corpus C18 plugin filter"},
+    {"id": "F8a", "status": "fixed", "commit": "701da2e", "tag": "c18-null-node-subnet",
+     "what": "fixed: property=C18 701da2e \"nodeSubnets\":[null] in the ConfigMap made the decoder dereference nil in the reload "
+             "goroutine; witness unmarshal_pool_refuted_null_subnet, corpus C18 conf"},
 ]
 
 BOUNDARY_RANGES = ["255.255.255.250~255.255.255.255", "255.255.255.255", "0.0.0.0~0.0.0.3", "10.0.0.2~10.0.0.4",
@@ -233,8 +248,8 @@ def gen_api_http(rng, ctx):
         qs = []
         for k in ("keyword", "poolName", "appName", "podName", "namespace", "appType", "page", "size", "sort"):
             if rng.random() < 0.4:
-                qs.append("%s=%s" % (k, rng.choice(["", "0", "1", "-1", "abc", "dp_", "_", "%25", "ip+desc", "ip%20asc", "podname desc",
-                                                       "99999999999999999999", "deployment", "x" * 200])))
+                qs.append("%s=%s" % (k, quote(rng.choice(["", "0", "1", "-1", "abc", "dp_", "_", "%25", "ip+desc", "ip%20asc", "podname desc",
+                                                             "99999999999999999999", "deployment", "x" * 200]), safe="%+")))
         if rng.random() < 0.1:
             qs.append(rng.choice(["%zz", "a=%", "&&&", "page=1&page=2"]))
         return {"op": "api_http", "route": "list", "query": "&".join(qs)}
